@@ -22,7 +22,8 @@ RECURSIVE CharIdx(_, _, _, _)
 CharIdx(chars, b, k, off) == IF off >= b \/ k >= Len(chars) THEN k ELSE CharIdx(chars, b, k + 1, off + chars[k + 1][2])
 
 \* per-token reading of C08 (used where the full stream is not determined by the documentation):
-\*  a token of a rule with a non-greedy repetition is the shortest non-empty match of that rule at its start,
+\*  a token of a rule of the shape prefix / non-greedy repetition / literal terminator is the shortest
+\*  non-empty match of that rule at its start (other rules containing *? or +? only have to match),
 \*  a token of a greedy rule is the longest match of that rule at its start
 TokenOk(C, chars, t) ==
   IF t[1] < 2 THEN TRUE
@@ -33,7 +34,9 @@ TokenOk(C, chars, t) ==
        IN \E r \in cand :
             LET ends == RuleEnds(C.macros, rules[r].expr, chars, i) \ {i}
             IN /\ j \in ends
-               /\ IF HasNG(C.macros, rules[r].expr) THEN \A x \in ends : j <= x ELSE \A x \in ends : j >= x
+               /\ IF NGShape(C.macros, rules[r].expr) THEN \A x \in ends : j <= x
+                  ELSE IF HasNG(C.macros, rules[r].expr) THEN TRUE      \* outside the shape C08 describes: only "is a match"
+                  ELSE \A x \in ends : j >= x
 
 Check ==
   LET Rn == LRuns[rid]
